@@ -14,5 +14,21 @@ jsonschema.validate(json.load(open('MANIFEST.json')), json.load(open('/root/.vp/
 jsonschema.validate(json.load(open('evidence/$id.json')), json.load(open('/root/.vp/EVIDENCE.schema.json')))
 print('schemas ok')
 PY
-git add -A . >/dev/null 2>&1
-git commit -qm "Integrate $id" && echo "integrated $id"
+# stage only this property's files (other builders may be mid-edit in the same tree)
+files=$(/venv/bin/python - "$id" <<'PY'
+import sys, importlib, os, glob
+sys.path.insert(0, 'harness')
+import common
+pid = sys.argv[1]
+mod = importlib.import_module(pid.lower())
+prop = [v for v in vars(mod).values() if isinstance(v, type) and issubclass(v, common.Prop) and v is not common.Prop][0]()
+vs = common._closure([prop.props_file] + [m.replace('.', '/') + '.v' for m in prop.imports])
+out = ['coq/theories/' + v for v in vs]
+out += ['harness/%s.py' % pid.lower(), 'harness/claims/%s.json' % pid, 'findings.d/%s.json' % pid, 'notes/%s.md' % pid,
+        'evidence/%s.json' % pid, 'MANIFEST.json', 'known_findings.json', 'harness/integrated.txt']
+out += glob.glob('corpus/%s/*' % pid) + glob.glob('fixes/%s_*' % pid)
+print(' '.join(f for f in out if os.path.exists(f)))
+PY
+)
+git add $files >/dev/null 2>&1
+git commit -qm "Integrate $id" -- $files >/dev/null 2>&1 && echo "integrated $id" || echo "nothing new to commit for $id"
